@@ -5,7 +5,7 @@ import dataclasses
 from ..core.model import AnchorError
 from ..core.cfg import walk_shallow, cfg_of
 from ..core.facts import U, atoms_of
-from ..engine import (fn_name, kwarg, local_defs, returns_of, stmts_in, dominating_edges, prop_satisfiable,
+from ..engine import (argn, fn_name, kwarg, local_defs, returns_of, stmts_in, dominating_edges, prop_satisfiable,
                       stores_between)
 from . import common
 
@@ -145,7 +145,7 @@ def s2(ctx, rep, clause="S2"):
     # the failure check looks at every trial that finished during the run, not at the last iteration's ones
     hf = [x for x in walk_shallow(f.node) if isinstance(x, ast.Call) and fn_name(x) == "_handle_failure"]
     acc = {U(x.func.value) for x in walk_shallow(f.node) if isinstance(x, ast.Call) and fn_name(x) == "update" and isinstance(x.func, ast.Attribute)
-           and isinstance(x.func.value, ast.Name) and x.args and isinstance(x.args[0], ast.Name)
+           and isinstance(x.func.value, ast.Name) and x.args and isinstance(argn(x, 0), ast.Name)
            and any(isinstance(p_, (ast.While, ast.For)) for p_ in _anc(x))}
     okh = len(hf) == 1 and (kwarg(hf[0], "done_trials_statuses", 0) is not None) and U(kwarg(hf[0], "done_trials_statuses", 0)) in acc
     rep.put(okh, clause, "taint", "Tuner.run: _handle_failure is given the record accumulated over the whole run", f, hf[0] if hf else None,
@@ -176,7 +176,7 @@ def s3(ctx, rep):
     f = P.method("TrialBackend", "stop_all")
     ok = False
     for n in walk_shallow(f.node):
-        if isinstance(n, ast.Call) and fn_name(n) == "_all_trial_results" and n.args and U(n.args[0]) == "self.trial_ids":
+        if isinstance(n, ast.Call) and fn_name(n) == "_all_trial_results" and argn(n, 0) is not None and U(argn(n, 0)) == "self.trial_ids":
             ok = True
     rep.put(ok, "S3", "agreement", "TrialBackend.stop_all inspects all trial ids", f, None,
             "_all_trial_results(self.trial_ids)", "stop_all does not look at every trial the backend ever started")
